@@ -338,6 +338,15 @@ impl Ast {
         // Add the element to this AST.
         self.add_element(element)
     }
+
+    /// Moves a module into this AST, and returns a [WeakPtr] to it. An entry is added for the module to this AST's
+    /// [lookup table](Ast::lookup_table) only if its identifier isn't already taken: modules can be re-opened, and
+    /// must not hide a definition with the same scoped identifier, no matter which of the two was parsed first.
+    pub(crate) fn add_module(&mut self, module: OwnedPtr<crate::grammar::Module>) -> WeakPtr<crate::grammar::Module> {
+        let scoped_identifier = module.borrow().parser_scoped_identifier();
+        self.lookup_table.entry(scoped_identifier).or_insert(self.elements.len());
+        self.add_element(module)
+    }
 }
 
 impl Default for Ast {
